@@ -122,7 +122,23 @@ def gen_history(rr):
                         'name': rr.choice(VARS), 'value': rr.choice(VALUES)})
         else:
             ops.append({'op': 'tamper', 'cid': cid, 'platform': rr.choice(PLATFORMS)})
-    return {'doc': doc, 'platform': cur_platform, 'ops': ops, 'check_seed': rr.getrandbits(32)}
+    case = {'doc': doc, 'platform': cur_platform, 'ops': ops, 'check_seed': rr.getrandbits(32)}
+    # the name of the second platform and of the components are inputs too: cache labels and the regular expressions
+    # that invalidate them are built from them (non-word characters, names that are prefixes of one another)
+    ren = {'px': rr.choice(['px', 'px', 'openshift-cpu', 'lsf.gpu', 'p_x'])}
+    if rr.random() < 0.4:
+        ren.update({'c1': 'c', 'c2': 'c-x', 'c3': 'c.x', 'c4': 'cc'})
+    return rename(case, ren)
+
+
+def rename(obj, ren):
+    if isinstance(obj, dict):
+        return {(ren.get(k, k) if isinstance(k, str) else k): rename(v, ren) for k, v in obj.items()}
+    if isinstance(obj, list):
+        return [rename(v, ren) for v in obj]
+    if isinstance(obj, str):
+        return ren.get(obj, obj)
+    return obj
 
 
 def gen_case(seed, tier, index=0):
@@ -267,7 +283,7 @@ def run_history(h, cnt):
 
     def all_pairs():
         ids = sorted(set(list(conc._component_dictionary.keys())))
-        return [(cid, p, fl) for cid in ids for p in PLATFORMS for fl in range(len(FLAGSETS))]
+        return [(cid, p, fl) for cid in ids for p in h['doc']['platforms'] for fl in range(len(FLAGSETS))]
 
     for step, op in enumerate(h['ops']):
         k = op['op']
